@@ -43,3 +43,47 @@ Theorem C08_blinds_rule :
          pl s' sb = true /\ pl s' bb = true /\ forall y, In y (pre ++ mid) -> pl s' y = false).
 Proof. exact sm_next_rule. Qed.
 Print Assumptions C08_blinds_rule.
+
+(* the newcomer clause, in two halves.
+   (1) A successful move to the next hand switches off every empty seat strictly between the dealer and the
+       big blind (front = the seats clockwise after the dealer up to, not including, the big blind): a player
+       who takes such a seat afterwards is not active, hence not dealt in.
+   (2) At a later successful move every occupied seat is made active exactly when the button has passed it
+       (it is among the seats scanned before the new dealer) or it lies behind the new big blind; nothing
+       else about it changes.  So the newcomer is dealt in from exactly the first hand after the button has
+       moved past his seat: not before, and not later. *)
+Theorem C08_empty_seats_before_the_big_blind_are_switched_off :
+  forall s d s',
+    renew s d = Some s' -> pl s d = true -> (d < sm_max s)%nat ->
+    exists front bb post, tl (normalized s d) = front ++ bb :: post /\ sm_bb s' = Some bb /\ ~ In bb front /\
+      forall x, In x front -> s_occ (get_seat s x) = false -> s_active (get_seat s' x) = false.
+Proof. exact renew_switches_off_empty_seats. Qed.
+Print Assumptions C08_empty_seats_before_the_big_blind_are_switched_off.
+
+Theorem C08_occupied_seats_after_next :
+  forall s s',
+    (2 <= playable_count s)%nat -> (forall d, sm_dealer s = Some d -> (d < sm_max s)%nat) -> sm_next s = (s', SOk) ->
+    exists d' pos, find_active s (scan_list s) 0 = Some (d', pos) /\ sm_dealer s' = Some d' /\
+      forall x, s_occ (get_seat s x) = true ->
+        get_seat s' x = if among x (firstn pos (scan_list s)) || among x (behind_bb (fst (next_dealer s)) d')
+                        then activate (get_seat s x) else get_seat s x.
+Proof. exact sm_next_seat. Qed.
+Print Assumptions C08_occupied_seats_after_next.
+
+Theorem C08_newcomer_dealt_in_when_the_button_has_passed :
+  forall s s' x,
+    (2 <= playable_count s)%nat -> (forall d, sm_dealer s = Some d -> (d < sm_max s)%nat) -> sm_next s = (s', SOk) ->
+    s_occ (get_seat s x) = true -> s_reserved (get_seat s x) = false -> s_active (get_seat s x) = false ->
+    exists d' pos, find_active s (scan_list s) 0 = Some (d', pos) /\
+      (pl s' x = true <-> among x (firstn pos (scan_list s)) = true \/ among x (behind_bb (fst (next_dealer s)) d') = true).
+Proof. exact newcomer_dealt_in. Qed.
+Print Assumptions C08_newcomer_dealt_in_when_the_button_has_passed.
+
+(* non-vacuity: on five seats, a player takes the empty seat 1 between the dealer (seat 0) and the big blind; he is
+   held out (not playable) until the next move, in which the button goes to seat 2 and so passes his seat *)
+Example C08_newcomer_example :
+  let s0 := sm_run 5 [OJoin 0 0; OSeat 0; OJoin 2 0; OSeat 2; OJoin 3 0; OSeat 3; ONext] in
+  let s1 := sm_run 5 [OJoin 0 0; OSeat 0; OJoin 2 0; OSeat 2; OJoin 3 0; OSeat 3; ONext; OJoin 1 0; OSeat 1] in
+  let s2 := sm_run 5 [OJoin 0 0; OSeat 0; OJoin 2 0; OSeat 2; OJoin 3 0; OSeat 3; ONext; OJoin 1 0; OSeat 1; ONext] in
+  sm_dealer s0 = Some 0%nat /\ pl s1 1 = false /\ sm_dealer s2 = Some 2%nat /\ pl s2 1 = true.
+Proof. vm_compute. auto. Qed.
